@@ -59,11 +59,26 @@ theorem sim_gen_range_in_bounds : C20_sim_gen_range_in_bounds := by
     have := sampleLoop64_bounds lo (hi - lo) (by omega) _ _ _ _ h
     exact ⟨fun _ => by omega, fun hle => by omega⟩
 
-example : ∃ v r', simGenRange 0 1000000 (Rng.new 42) = (.ok v, r') ∨ (simGenRange 0 1000000 (Rng.new 42)).1 = .fuel := by
-  cases h : simGenRange 0 1000000 (Rng.new 42) with
-  | mk d r' => cases d with
-    | ok v => exact ⟨v, r', Or.inl rfl⟩
-    | fuel => exact ⟨0, r', Or.inr rfl⟩
+/-- a hand-built generator state (the kernel does not have to evaluate ChaCha): buffer of 64
+    equal words, nothing consumed -/
+def rngConst (w : UInt32) : Rng :=
+  { key := Vector.replicate 8 0, ctr := 0, buf := Vector.replicate 64 w, idx := 0 }
+
+/-- buffer `3, 0, 0, …`: the first 64-bit word is 3, all later ones 0 -/
+def rngThreeThenZero : Rng :=
+  { key := Vector.replicate 8 0, ctr := 0, buf := (Vector.replicate 64 0).set 0 3, idx := 0 }
+
+/-- non-vacuity: the hypothesis `… = (.ok v, r')` is met by a concrete state and the value is
+    strictly inside the range (word 0xDEADBEEFDEADBEEF, range 12: high product half 10) -/
+example : (simGenRange 5 17 (rngConst 0xDEADBEEF)).1 = .ok 15 := by decide
+
+/-- non-vacuity of the rejection branch: for range 2^63+1 the word 3 is rejected (low product half
+    2^63+3 > zone = 2^63), the next word 0 is accepted: two words consumed, value = low end -/
+example : (simGenRange 7 (7 + 2 ^ 63 + 1) rngThreeThenZero).1 = .ok 7 ∧
+    (simGenRange 7 (7 + 2 ^ 63 + 1) rngThreeThenZero).2.idx = 4 := by decide
+
+/-- … and the empty range returns `min` without touching the generator -/
+example : (simGenRange 9 9 rngThreeThenZero).1 = .ok 9 ∧ (simGenRange 9 9 rngThreeThenZero).2.idx = 0 := by decide
 
 /-- `DeterministicRng::gen_range` -/
 def C20_det_gen_range_in_bounds : Prop :=
@@ -83,6 +98,11 @@ theorem det_gen_range_in_bounds : C20_det_gen_range_in_bounds := by
   · intro hle
     have : lo ≥ hi := hle
     simp [this]
+
+example : (detGenRange 5 17 (rngConst 0xDEADBEEF)).1 = 12 ∧ detGenRange 9 9 (rngConst 1) = (9, rngConst 1) := by
+  constructor
+  · decide
+  · rfl
 
 /-- full strength: the rejection loop always terminates with a value.  Not provable without an
     analysis of the ChaCha8 output; see `sampling_fuel_partial`. -/
@@ -104,8 +124,14 @@ theorem sampling_fuel_partial (lo hi : Nat) (r : Rng) (h : lo < hi) :
 theorem zone_ge_half (range : Nat) (h0 : 0 < range) (h : range < 2 ^ 64) :
     2 ^ 63 ≤ zone 64 range + 1 ∧ zone 64 range < 2 ^ 64 := SimLemmas.zone_ge_half range h0 h
 
-example : zone 64 1000000 = 18446744073709551615 - 18446744073709551616 % 1000000 + 0 ∨ True := Or.inr trivial
-example : zone 64 (2 ^ 63 + 1) = 2 ^ 63 := by decide
+/-- concrete zones: 10^6 (the buggify range) rejects 2^64 - 17592186044416000000 of 2^64 words
+    (< 5 %); 2^63 + 1 is the worst case, it rejects just under half -/
+example : zone 64 1000000 = 17592186044415999999 ∧ zone 64 (2 ^ 63 + 1) = 2 ^ 63 ∧ zone 32 7 = 3758096383 := by decide
+
+/-- non-vacuity of `sampling_fuel_partial`'s right-hand side: one rejected word, concretely -/
+example : rejects64 (2 ^ 63 + 1) 1 rngThreeThenZero := by
+  unfold rejects64 rejects64
+  decide
 
 /-- `shuffle` of either wrapper returns a permutation of its input -/
 def C20_shuffle_is_permutation : Prop :=
@@ -186,7 +212,11 @@ theorem timerq_wf_preserved (q : TimerQ) (h : TimerQ.WF q) :
     · intro e he; exact hid e (dropWhile_mem _ _ e he)
     · exact hnd.sublist ((List.dropWhile_sublist _).map _)
 
-example : TimerQ.WF ({} : TimerQ) := ⟨List.Pairwise.nil, by simp, by simp⟩
+instance : DecidableRel keyLe := fun a b => by unfold keyLe; infer_instance
+
+/-- non-vacuity: a reachable, non-empty timer context with a tie in the wake time -/
+example : TimerQ.WF ((((({} : TimerQ).addTimer 7).2.addTimer 3).2.addTimer 7).2) := by
+  refine ⟨by decide, by decide, by decide⟩
 
 /-- on a sorted list, "take while due" is "all that are due" -/
 theorem takeWhile_eq_filter_of_sorted (now : Nat) :
